@@ -10,7 +10,10 @@ remove the worktree.  On success the change is stored under /verif/seeded/<name>
 """
 import json, os, re, shutil, subprocess, sys, time
 V = os.path.dirname(os.path.dirname(os.path.abspath(__file__)))
-pid, src, name = sys.argv[1], sys.argv[2], sys.argv[3]
+CHECKS_ONLY = "--checks-only" in sys.argv
+if CHECKS_ONLY:
+    sys.argv.remove("--checks-only")
+pid, src, name = sys.argv[1], os.path.abspath(sys.argv[2]), sys.argv[3]
 checks = sys.argv[4:] or [pid]
 wt = "/tmp/wt_seed_%s" % name
 import hashlib
@@ -20,7 +23,11 @@ def sh(cmd, cwd=wt, timeout=1500):
     r = subprocess.run(cmd, cwd=cwd, env=env, shell=True, stdout=subprocess.PIPE, stderr=subprocess.STDOUT, text=True, timeout=timeout)
     return r.returncode, r.stdout
 subprocess.run("git -C /repo worktree remove --force %s 2>/dev/null; git -C /repo worktree prune; git -C /repo worktree add --detach %s" % (wt, wt), shell=True, stdout=subprocess.DEVNULL, stderr=subprocess.DEVNULL)
+import atexit
+atexit.register(lambda: subprocess.run("git -C /repo worktree remove --force %s; git -C /repo worktree prune; rm -rf /verif/build/ext_%s /verif/build/run/*_%s" % (wt, TAG, TAG), shell=True, stdout=subprocess.DEVNULL, stderr=subprocess.DEVNULL))
 meta = {"property": pid, "name": name, "ran": [], "confirmed": False}
+if CHECKS_ONLY and os.path.exists(os.path.join(src, "meta.json")):
+    meta = json.load(open(os.path.join(src, "meta.json")))
 try:
     patch = os.path.join(src, "patch.diff")
     demo = os.path.join(src, "demo_test.go")
@@ -47,6 +54,8 @@ try:
     if demodir is None:
         demodir = touched[0]
     meta["demo_dir"] = demodir
+    if CHECKS_ONLY:
+        raise StopIteration
     rc, out = sh("go build $(go list -f '{{if and (ne .Name \"main\") .GoFiles}}{{.ImportPath}}{{end}}' ./...)")
     meta["ran"].append({"cmd": "go build ./...", "rc": rc})
     if rc: raise SystemExit("build fails with patch: " + out[-2000:])
@@ -72,7 +81,11 @@ try:
         raise SystemExit("demo does not discriminate: with patch rc=%d, without rc=%d\n%s" % (rc1, rc2, out2[-1500:]))
     meta["confirmed"] = True
     sh("git apply %s" % patch)
+except StopIteration:
+    pass
+try:
     meta["checks"] = {}
+    meta["checked_at_repo_head"] = subprocess.run("git -C /repo rev-parse --short HEAD", shell=True, stdout=subprocess.PIPE, text=True).stdout.strip()
     for c in checks:
         t0 = time.time()
         r = subprocess.run(["./check", c, "--no-evidence"], cwd=V, env=dict(env, VERIF_REPO=wt), stdout=subprocess.PIPE, stderr=subprocess.PIPE, text=True)
@@ -82,13 +95,14 @@ try:
     meta["detected_by"] = [c for c, v in meta["checks"].items() if v["rc"] == 1]
     out = os.path.join(V, "seeded", name)
     os.makedirs(out, exist_ok=True)
-    shutil.copyfile(patch, os.path.join(out, "patch.diff"))
-    shutil.copyfile(demo, os.path.join(out, "demo_test.go"))
-    if os.path.exists(os.path.join(src, "notes.md")):
-        shutil.copyfile(os.path.join(src, "notes.md"), os.path.join(out, "notes.md"))
+    if os.path.realpath(src) != os.path.realpath(out):
+        shutil.copyfile(patch, os.path.join(out, "patch.diff"))
+        shutil.copyfile(demo, os.path.join(out, "demo_test.go"))
+        if os.path.exists(os.path.join(src, "notes.md")):
+            shutil.copyfile(os.path.join(src, "notes.md"), os.path.join(out, "notes.md"))
     notes = open(os.path.join(src, "notes.md")).read() if os.path.exists(os.path.join(src, "notes.md")) else ""
     meta["needs_to_manifest"] = notes[:1500]
     json.dump(meta, open(os.path.join(out, "meta.json"), "w"), indent=1)
     print("stored", out, "detected_by", meta["detected_by"])
-finally:
-    subprocess.run("git -C /repo worktree remove --force %s; git -C /repo worktree prune; rm -rf /verif/build/ext_%s /verif/build/run/*_%s" % (wt, TAG, TAG), shell=True, stdout=subprocess.DEVNULL, stderr=subprocess.DEVNULL)
+except Exception:
+    raise
